@@ -17,6 +17,9 @@ fn main() {
         "forget" => drivers::forget::run(&a),
         "probe" => drivers::probe::run(&a),
         "damage" => drivers::damage::run(&a),
+        "sealed-msg" => drivers::sealed::run_msg(&a),
+        "sealed-store" => drivers::sealed::run_store(&a),
+        "keys" => drivers::sealed::run_keys(&a),
         "restore" => drivers::restore::run(&a),
         "roundtrip" => drivers::roundtrip::run(&a),
         "sched" => drivers::sched::run(&a),
